@@ -30,6 +30,7 @@
   *returned* step.  The search of `./check C12` tests all five clauses directly on the real function.
 -/
 import DfolsVerif.Proofs.TrsBox
+import DfolsVerif.Gen.TrsClip
 import Mathlib.Algebra.BigOperators.Fin
 import Mathlib.Tactic.NormNum
 import Mathlib.Tactic.Positivity
@@ -159,6 +160,35 @@ example {n : Nat} {K : Type} [CommRing K] (H : Matrix (Fin n) (Fin n) K) (g : Fi
 example : Q (K := ℚ) (n := 2) (fun _ => 1) (fun i j => if i = j then 2 else 0) ((1 / 2 : ℚ) • fun _ => (-1 : ℚ)) = -(1 / 2) := by
   simp [Q, dotProduct, mulVec]
   norm_num
+
+/-! ### layer G: `d_within_bounds` translated from trust_region.py on every run -/
+
+/-- **the clipping the box theorems are about is the clipping in the source**: the component-wise translation of
+    `trust_region.d_within_bounds` (elementwise `np.maximum(np.minimum(xopt + d, su), sl)`, then the two masked stores
+    `xnew[xbdi == -1] = sl[..]`, `xnew[xbdi == 1] = su[..]`, then `xnew - xopt`) is the kernel `dWithinBounds` of
+    `trsbox_box` / `trsbox_box_exact` / `trsbox_returns_clipped` — for any scalar type (no law of arithmetic used). -/
+theorem gen_dWithinBounds_eq {α : Type} [Add α] [Sub α] [Min α] [Max α] (d xopt sl su : Nat → α) (xbdi : Nat → Int) :
+    Gen.dWithinBoundsSrc d xopt sl su xbdi = dWithinBounds d xopt sl su xbdi := by
+  funext i
+  simp only [Gen.dWithinBoundsSrc, dWithinBounds, xnewClip]
+  by_cases h1 : xbdi i = 1
+  · have h2 : ¬ xbdi i = -1 := by omega
+    simp [h1]
+  · simp [h1]
+
+/-- **every step the Python branch of `trsbox` returns went through `d_within_bounds`**: each `return` of
+    `alt_trust_step` returns `d_within_bounds(d, xopt, sl, su, xbdi)`; `trsbox` returns that expression, or the `d`
+    it has just received from `alt_trust_step`, or (compiled-extension branch, not modelled) `trustregion.solve`;
+    and `d_within_bounds` is called nowhere else. -/
+theorem C12_src_returns_clipped :
+    (∀ r ∈ Gen.trsboxReturns, r.1 = "alt_trust_step" → r.2.1 = "d_within_bounds(d, xopt, sl, su, xbdi)") ∧
+    (∀ r ∈ Gen.trsboxReturns, r.1 = "trsbox" →
+      r.2.1 = "d_within_bounds(d, xopt, sl, su, xbdi)" ∨
+      (r.2.1 = "d" ∧ r.2.2 = "d, gnew = alt_trust_step(n, xopt, H, sl, su, d, xbdi, nact, gnew, qred)") ∨
+      r.2.1 = "trustregion.solve(g, H, delta, sl=np.minimum(sl - xopt, -ZERO_THRESH), su=np.maximum(su - xopt, ZERO_THRESH), verbose_output=True)") ∧
+    (∀ c ∈ Gen.dWithinBoundsCalls, c.2.1 = "return" ∧ c.2.2 = "d_within_bounds(d, xopt, sl, su, xbdi)") ∧
+    ("trsbox", "d_within_bounds(d, xopt, sl, su, xbdi)", "") ∈ Gen.trsboxReturns := by
+  decide +kernel
 
 end C12
 end Dfols
